@@ -703,7 +703,10 @@ func genC09(g *G) {
 		for _, oc := range []string{"ok", "fail", "failhold", "failmsg", "gto", "cancel", "cancelrun", "badstart"} {
 			g.Emit("sess", "a:P:"+np+":"+oc+",a:P:1:ok")
 		}
-		for _, it := range c9retryP {
+		for i, it := range c9retryP {
+			if np == "2" && !g.Thorough() && i%3 != 0 {
+				continue
+			}
 			g.Emit("sess", "a:P:"+np+":"+it+",a:p:1:ok")
 		}
 		for _, it := range c9retryC {
